@@ -94,6 +94,8 @@ pub(crate) fn run_case_impl(case: &Case, opts: Opts) -> Result<Outcome, Failure>
     }
     st.poison(&obs).map_err(|e| fail(format!("setup: {e}"), None))?;
     st.last_obs = obs;
+    // the trace starts here: how the layout was constructed is not part of it
+    ledger::with(|l| l.log.clear());
 
     // ---- operations
     for (i, op) in case.ops.iter().enumerate() {
@@ -114,6 +116,12 @@ pub(crate) fn run_case_impl(case: &Case, opts: Opts) -> Result<Outcome, Failure>
         out.counts = st.op_counts;
     }
     out.counts_per_op.push(st.op_counts);
+    // the element lifecycle log (creations, clones, destructions in order, by value) is part of
+    // the observable trace
+    let log = ledger::with(|l| std::mem::take(&mut l.log));
+    for (k, v) in log {
+        st.dig(((k as u64) << 32) | v as u64);
+    }
     out.flags = st.flags;
     out.digest = st.dig;
     out.max_reloc = st.max_reloc;
